@@ -57,6 +57,9 @@ type Exec struct {
 	syncIDs    map[string]int
 	inE2       bool
 	eqMemo     map[[2]interface{}]*smt.Term
+	OpenRGB    StubFn
+	curG       int         // goroutine currently executed by the scheduler (+1), 0 = harness main
+	protected  map[int]int // object id -> sync cell of the mutex that must be held to touch it
 	WatcherChan Value
 	WatcherDone Value
 	Decoded    Value                                       // value registered by verifrt.TOMLBytes for the decoder stubs
@@ -920,6 +923,9 @@ func (ex *Exec) step(st *State, fr *Frame, instr ssa.Instruction) {
 		}
 		mt := in.X.Type().Underlying().(*types.Map)
 		fr.regs[in] = ex.withChoice(st, x, func(st *State, v Value) Value {
+			if mv, isMap := v.(*MapV); isMap {
+				ex.checkProtected(st, in, mv.Obj, "map read")
+			}
 			val, ok := ex.mapLookup(st, v, k, mt)
 			if in.CommaOk {
 				return &TupleV{E: []Value{val, ok}}
@@ -931,6 +937,9 @@ func (ex *Exec) step(st *State, fr *Frame, instr ssa.Instruction) {
 		k := ex.val(fr, in.Key)
 		v := ex.val(fr, in.Value)
 		ex.withChoice(st, x, func(st *State, m Value) Value {
+			if mv, isMap := m.(*MapV); isMap {
+				ex.checkProtected(st, in, mv.Obj, "map write")
+			}
 			ex.mapUpdate(st, in, m, k, v)
 			return nil
 		})
@@ -1050,6 +1059,7 @@ func (ex *Exec) toIdx(v Value, t types.Type) *smt.Term {
 // ---------- memory ----------
 
 func (ex *Exec) load(st *State, site ssa.Instruction, p *PtrV) Value {
+	ex.checkProtected(st, site, p.Obj, "read")
 	v := ex.get(st, p.Obj)
 	return ex.getPath(st, site, v, p.Path)
 }
@@ -1128,6 +1138,7 @@ func (ex *Exec) store(st *State, site ssa.Instruction, addr Value, v Value) {
 	ex.withChoice(st, addr, func(st *State, a Value) Value {
 		switch p := a.(type) {
 		case *PtrV:
+			ex.checkProtected(st, site, p.Obj, "write")
 			old := ex.get(st, p.Obj)
 			st.heap[p.Obj] = ex.setPath(old, p.Path, v)
 		case *NilV:
